@@ -489,3 +489,356 @@ def _subst_in_stmt(st, sub):
                     v.context_expr = sub.visit(v.context_expr)
                 elif isinstance(v, ast.keyword):
                     v.value = sub.visit(v.value)
+
+
+# ---------------------------------------------------------------------------
+# inliner v2: private methods of the same class, value-returning helpers, one-loop generators
+# ---------------------------------------------------------------------------
+
+ANCHOR_METHODS = set("""ArithmeticClass __bltBlob __bltOption __bltOptionTie __bltOptionNick __bltOptionWithdrawn __bltOptionUndeclared __bool__ __cmp__ __init__ __new__
+__str__ __validate _bltParse _fill action add advance as_dict bltParse bltRead byTieOrder byVote byBallotOrder byCid count default dump elect defeat unelect exhausted getCid getopt
+initialize json log logAction main min newRound options postCheck record report select setopt unpend update vote copy hopeful pending elected defeated withdrawn eligible
+seatsLeftToFill candidate restart topRank topCand surplus zeroVote addVote cState cDict cidList mul div muldiv info tag helps prog normalize parse unused overrides
+__eq__ __ne__ __lt__ __le__ __gt__ __ge__ __add__ __sub__ __mul__ __floordiv__ __truediv__ __neg__ __pos__ __abs__ __hash__ __repr__ __copy__ __deepcopy__""".split())
+
+
+def _single_exit(body):
+    """(prefix statements, return expression) if the body is straight-line code ending in the only `return <expr>`; a trailing
+    `if c: return A` / `return B` pair (or if/else of returns) becomes the expression `A if c else B`"""
+    body = [s_ for s_ in body if not (isinstance(s_, ast.Expr) and isinstance(s_.value, ast.Constant) and isinstance(s_.value.value, str))]
+    if not body:
+        return None
+    last = body[-1]
+    pre = body[:-1]
+    expr = None
+    if isinstance(last, ast.Return) and last.value is not None:
+        expr = last.value
+        if pre and isinstance(pre[-1], ast.If) and not pre[-1].orelse and len(pre[-1].body) == 1 and isinstance(pre[-1].body[0], ast.Return) \
+                and pre[-1].body[0].value is not None:
+            expr = ast.copy_location(ast.IfExp(test=pre[-1].test, body=pre[-1].body[0].value, orelse=last.value), last)
+            pre = pre[:-1]
+    elif isinstance(last, ast.If) and len(last.body) == 1 and len(last.orelse) == 1 and isinstance(last.body[0], ast.Return) and isinstance(last.orelse[0], ast.Return) \
+            and last.body[0].value is not None and last.orelse[0].value is not None:
+        expr = ast.copy_location(ast.IfExp(test=last.test, body=last.body[0].value, orelse=last.orelse[0].value), last)
+    if expr is None:
+        return None
+    if any(isinstance(x, (ast.Return, ast.Yield, ast.YieldFrom)) for s_ in pre for x in ast.walk(s_)):
+        return None
+    return pre, expr
+
+
+def _one_loop_generator(body):
+    """(iter expression, target name, filter tests) for a generator helper of the form `for v in XS: [if c:] yield v`"""
+    body = [s_ for s_ in body if not (isinstance(s_, ast.Expr) and isinstance(s_.value, ast.Constant) and isinstance(s_.value.value, str))]
+    if len(body) != 1 or not isinstance(body[0], ast.For) or body[0].orelse or not isinstance(body[0].target, ast.Name):
+        return None
+    loop = body[0]
+    inner = loop.body
+    tests = []
+    while len(inner) == 1 and isinstance(inner[0], ast.If) and not inner[0].orelse:
+        tests.append(inner[0].test)
+        inner = inner[0].body
+    if len(inner) == 1 and isinstance(inner[0], ast.Expr) and isinstance(inner[0].value, ast.Yield) and isinstance(inner[0].value.value, ast.Name) \
+            and inner[0].value.value.id == loop.target.id:
+        return loop.iter, loop.target.id, tests
+    return None
+
+
+def _callee_table(tree):
+    """[(container node whose body holds the defs, {name: FunctionDef}, kind)] for functions with nested defs and for classes"""
+    out = []
+    for node in ast.walk(tree):
+        if isinstance(node, (ast.FunctionDef, ast.AsyncFunctionDef)):
+            defs = {s_.name: s_ for s_ in node.body if isinstance(s_, ast.FunctionDef)}
+            if defs:
+                out.append((node, defs, 'local'))
+        elif isinstance(node, ast.ClassDef):
+            defs = {s_.name: s_ for s_ in node.body if isinstance(s_, ast.FunctionDef)}
+            if defs:
+                out.append((node, defs, 'method'))
+    return out
+
+
+def _method_call(call, cls_name):
+    """name of the method when call is self.NAME(...) / cls.NAME(...) / <ClassName>.NAME(...)"""
+    f = call.func
+    if isinstance(f, ast.Attribute) and isinstance(f.value, ast.Name) and f.value.id in ('self', 'cls', cls_name):
+        return f.attr
+    return None
+
+
+def _unmangle(name, cls_name):
+    pre = '_' + cls_name.lstrip('_')
+    if name.startswith(pre + '__'):
+        return name[len(pre):]
+    return name
+
+
+def inline_helpers_v2(tree):
+    """second pass of helper inlining (see module docstring, extended):
+       * callee: a nested function, or a NON-anchor method of the same class whose name starts with '_' (self.x / cls.x / Class.x calls);
+       * contexts: the whole value of an Assign / AugAssign / Return / Expr statement, the iter of a for (one-loop generators and
+         single-exit helpers), any expression position for a helper that is just `return <expr>` over its parameters;
+       * at most 6 call sites, not recursive, no nested defs, no *args/**kwargs.
+    Returns the number of call sites inlined."""
+    total = 0
+    for container, defs, kind in _callee_table(tree):
+        cls_name = container.name if kind == 'method' else None
+        if kind == 'local' and any(isinstance(x, ast.Call) and isinstance(x.func, ast.Name) and x.func.id in ('locals', 'vars', 'eval', 'exec') for x in ast.walk(container)):
+            continue
+        for hname, h in list(defs.items()):
+            if kind == 'method':
+                base = _unmangle(hname, cls_name)
+                if not base.startswith('_') or base in ANCHOR_METHODS or hname in ANCHOR_METHODS or (base.startswith('__') and base.endswith('__')):
+                    continue
+                decos = [ast.unparse(d) for d in h.decorator_list]
+                if any(d not in ('staticmethod', 'classmethod') for d in decos):
+                    continue
+            elif h.decorator_list:
+                continue
+            if kind == 'local' and _role_like(container, h):
+                continue
+            if h.args.vararg or h.args.kwarg:
+                continue
+            if any(isinstance(x, (ast.FunctionDef, ast.AsyncFunctionDef, ast.ClassDef, ast.Global, ast.Nonlocal, ast.Await, ast.YieldFrom)) for x in ast.walk(h) if x is not h):
+                continue
+            # call sites
+            scope_nodes = [container] if kind == 'local' else [m for m in container.body if isinstance(m, ast.FunctionDef)]
+            calls = []
+            refs = 0
+            for sc in scope_nodes:
+                for x in ast.walk(sc):
+                    if kind == 'local':
+                        if isinstance(x, ast.Name) and x.id == hname:
+                            refs += 1
+                        if isinstance(x, ast.Call) and isinstance(x.func, ast.Name) and x.func.id == hname:
+                            calls.append((sc, x))
+                    else:
+                        if isinstance(x, ast.Attribute) and x.attr in (hname, _unmangle(hname, cls_name)) and isinstance(x.value, ast.Name) and x.value.id in ('self', 'cls', cls_name):
+                            refs += 1
+                        if isinstance(x, ast.Call) and _method_call(x, cls_name) in (hname, _unmangle(hname, cls_name)):
+                            calls.append((sc, x))
+            if not calls or refs != len(calls) or len(calls) > 6:
+                continue
+            if any(_inside(h, c_) for sc, c_ in calls):
+                continue                    # recursive
+            if any(isinstance(x, ast.Attribute) and x.attr == 'advance' and isinstance(x.value, ast.Name) and x.value.id in _params(h) for x in ast.walk(h)):
+                continue
+            body = [s_ for s_ in h.body if not (isinstance(s_, ast.Expr) and isinstance(s_.value, ast.Constant) and isinstance(s_.value.value, str))]
+            gen = _one_loop_generator(body) if any(isinstance(x, ast.Yield) for x in ast.walk(h)) else None
+            if any(isinstance(x, ast.Yield) for x in ast.walk(h)) and gen is None:
+                continue
+            se = None if gen else _single_exit(copy.deepcopy(body))
+            void_body = None
+            if not gen and se is None:
+                if _returns_value(h):
+                    continue
+                void_body = _early_return_to_else(copy.deepcopy(body))
+                if void_body is None:
+                    continue
+            done_all = True
+            for sc, call in calls:
+                if not _inline_one(sc, call, h, kind, cls_name, gen, se, void_body):
+                    done_all = False
+                else:
+                    total += 1
+            if done_all:
+                try:
+                    container.body.remove(h)
+                except ValueError:
+                    pass
+    return total
+
+
+def _inside(fn, node):
+    return any(x is node for x in ast.walk(fn))
+
+
+def _bind(call, h, kind, multi_suffix, outer_bound):
+    """parameter binding for one call: (mapping name->expr for direct substitution, rename map, pre-statements) or None"""
+    ps = _params(h)
+    decos = [ast.unparse(d) for d in h.decorator_list]
+    args = {}
+    plist = list(ps)
+    if kind == 'method' and 'staticmethod' not in decos:
+        # first parameter is the receiver
+        if not plist:
+            return None
+        recv = call.func.value
+        args[plist[0]] = recv if 'classmethod' not in decos else ast.Name(id='cls' if recv.id == 'cls' else recv.id, ctx=ast.Load())
+        plist = plist[1:]
+    for i, a in enumerate(call.args):
+        if i >= len(plist) or isinstance(a, ast.Starred):
+            return None
+        args[plist[i]] = a
+    for k in call.keywords:
+        if k.arg is None or k.arg not in plist or k.arg in args:
+            return None
+        args[k.arg] = k.value
+    pos = h.args.posonlyargs + h.args.args
+    for j, d in enumerate(h.args.defaults):
+        args.setdefault(pos[len(pos) - len(h.args.defaults) + j].arg, d)
+    for a_, d in zip(h.args.kwonlyargs, h.args.kw_defaults):
+        if d is not None:
+            args.setdefault(a_.arg, d)
+    if set(args) != set(ps):
+        return None
+    hb = _bound_names(h)
+    mapping, rename, pre, known = {}, {}, [], {}
+    for pn in ps:
+        a = args[pn]
+        if isinstance(a, ast.Constant) and a.value is None:
+            known[pn] = True
+        elif _cannot_be_none(a):
+            known[pn] = False
+        simple = isinstance(a, (ast.Name, ast.Constant)) or (isinstance(a, ast.Attribute) and isinstance(a.value, ast.Name)) or \
+            (isinstance(a, ast.Attribute) and isinstance(a.value, ast.Attribute) and isinstance(a.value.value, ast.Name))
+        if simple and pn not in hb:
+            mapping[pn] = a
+        else:
+            new = '%s__%s%s' % (pn, h.name.lstrip('_'), multi_suffix)
+            rename[pn] = new
+            pre.append(ast.Assign(targets=[ast.Name(id=new, ctx=ast.Store())], value=a))
+    for nm in hb:
+        if nm not in rename and nm not in ps:
+            if nm in outer_bound or multi_suffix:
+                rename[nm] = '%s__%s%s' % (nm, h.name.lstrip('_'), multi_suffix)
+    return mapping, rename, pre, known
+
+
+def _stmt_of(scope, node):
+    """(block, index, statement) of the innermost statement of `scope` containing node"""
+    best = None
+    for n in ast.walk(scope):
+        for fld in ('body', 'orelse', 'finalbody'):
+            b = getattr(n, fld, None)
+            if isinstance(b, list):
+                for i, s_ in enumerate(b):
+                    if isinstance(s_, ast.stmt) and any(x is node for x in ast.walk(s_)):
+                        # innermost: prefer the statement with the smallest span
+                        if best is None or _size(s_) < _size(best[2]):
+                            best = (b, i, s_)
+    return best
+
+
+def _size(n):
+    return sum(1 for _ in ast.walk(n))
+
+
+def _replace_expr(stmt, old, new):
+    class R(ast.NodeTransformer):
+        def visit(self, node):
+            if node is old:
+                return new
+            return super().visit(node)
+    R().visit(stmt)
+
+
+def _inline_one(scope, call, h, kind, cls_name, gen, se, void_body):
+    loc = _stmt_of(scope, call)
+    if loc is None:
+        return False
+    blk, idx, st = loc
+    outer_bound = _bound_names(scope) | set(_params(scope))
+    b = _bind(call, h, kind, _uid(), outer_bound)
+    if b is None:
+        return False
+    mapping, rename, pre, known = b
+    sub = _Subst(mapping, rename)
+
+    def conv(stmts):
+        out = []
+        for s_ in stmts:
+            for y in _as_list(_FoldNone(known).visit(copy.deepcopy(s_)) if known else copy.deepcopy(s_)):
+                out.append(sub.visit(y))
+        return out
+    if gen is not None:
+        it, tgt, tests = gen
+        if not (isinstance(st, ast.For) and st.iter is call and isinstance(st.target, ast.Name)):
+            return False
+        # for b in helper(x): BODY  ==>  for b in XS: if tests: BODY    (generator variable renamed to the loop variable)
+        sub2 = _Subst(mapping, dict(rename, **{tgt: st.target.id}))
+        st.iter = sub2.visit(copy.deepcopy(it))
+        if tests:
+            tt = [sub2.visit(copy.deepcopy(t_)) for t_ in tests]
+            test = tt[0] if len(tt) == 1 else ast.BoolOp(op=ast.And(), values=tt)
+            inner = ast.copy_location(ast.If(test=test, body=st.body, orelse=[]), st)
+            st.body = [inner]
+        for p_ in pre:
+            ast.copy_location(p_, st)
+        blk[idx:idx] = pre
+        for x in blk:
+            ast.fix_missing_locations(x)
+        return True
+    if se is not None:
+        pre_s, expr = se
+        top_value = (isinstance(st, (ast.Assign, ast.AugAssign, ast.Return, ast.Expr, ast.AnnAssign)) and getattr(st, 'value', None) is call) \
+            or (isinstance(st, ast.For) and st.iter is call) or (isinstance(st, (ast.If, ast.While)) and st.test is call and not pre_s and not pre and isinstance(st, ast.If))
+        if not top_value and (pre_s or pre):
+            return False                # an expression position: only for helpers that are a single expression over simple arguments
+        new_pre = [ast.copy_location(p_, st) for p_ in pre] + [ast.copy_location(x, st) if not hasattr(x, 'lineno') else x for x in conv(pre_s)]
+        new_expr = sub.visit(copy.deepcopy(expr))
+        if known:
+            new_expr = _fold_none_expr(new_expr, known)
+        _replace_expr(st, call, new_expr)
+        blk[idx:idx] = new_pre
+        for x in blk:
+            ast.fix_missing_locations(x)
+        return True
+    # void helper: statement call only
+    if not (isinstance(st, ast.Expr) and st.value is call):
+        return False
+    new_body = [ast.copy_location(p_, st) for p_ in pre] + conv(void_body)
+    if not new_body:
+        new_body = [ast.copy_location(ast.Pass(), st)]
+    blk[idx:idx + 1] = new_body
+    for x in blk:
+        ast.fix_missing_locations(x)
+    return True
+
+
+def _fold_none_expr(e, known):
+    class F(ast.NodeTransformer):
+        def visit_IfExp(self, node):
+            self.generic_visit(node)
+            t = node.test
+            if isinstance(t, ast.Compare) and len(t.ops) == 1 and isinstance(t.left, ast.Name) and t.left.id in known \
+                    and isinstance(t.comparators[0], ast.Constant) and t.comparators[0].value is None:
+                v = known[t.left.id] if isinstance(t.ops[0], ast.Is) else (not known[t.left.id] if isinstance(t.ops[0], ast.IsNot) else None)
+                if v is True:
+                    return node.body
+                if v is False:
+                    return node.orelse
+            return node
+    return F().visit(e)
+
+
+def _role_like(container, h):
+    """local helpers that the rules know by what they do (tie-break, ballot walk, quota, election predicate, completion test, iteration,
+    sure-loser scan, vote distribution, keep/transfer split): never inlined"""
+    ps = _params(h)
+    src = ast.unparse(h)
+    rets = [x for x in _own_walk(h) if isinstance(x, ast.Return) and x.value is not None]
+    if 'byTieOrder' in src:
+        return True
+    if any(isinstance(x, ast.Attribute) and x.attr == 'advance' for x in ast.walk(h)):
+        return True
+    # result assigned to <x>.quota
+    for x in ast.walk(container):
+        if isinstance(x, ast.Assign) and isinstance(x.value, ast.Call) and isinstance(x.value.func, ast.Name) and x.value.func.id == h.name \
+                and any(isinstance(t, ast.Attribute) and t.attr == 'quota' for t in x.targets):
+            return True
+    if len(ps) == 1 and rets and all(isinstance(r.value, ast.Compare) for r in rets) and 'quota' in src:
+        return True
+    if any(isinstance(r.value, ast.Tuple) for r in rets):
+        return True
+    if any(isinstance(x, ast.For) and any(isinstance(y, ast.Break) for y in ast.walk(x)) for x in ast.walk(h)) and rets:
+        return True
+    if not ps and any(isinstance(x, ast.AugAssign) and isinstance(x.target, ast.Attribute) and x.target.attr == 'vote' for x in ast.walk(h)):
+        return True
+    # zero-parameter boolean used as a loop / if test (countComplete)
+    if not ps and rets:
+        for x in ast.walk(container):
+            if isinstance(x, (ast.While, ast.If)) and any(isinstance(y, ast.Call) and isinstance(y.func, ast.Name) and y.func.id == h.name for y in ast.walk(x.test)):
+                return True
+    return False
